@@ -196,6 +196,10 @@ def run_case(case) -> Result:
         for leaf, spec in zip(leaves, specs):
             check_slice(res, comp, leaf, spec, f"{tag0} after compile ({spec['kind']})", pooled)
         for r in range(rng.randint(1, 3)):
+            # a reset must re-initialise: overwrite every tensor with garbage first
+            with torch.no_grad():
+                for p_ in cc_.parameters():
+                    p_.fill_(-7)
             o = call(cc_.reset_parameters)
             if not o.ok:
                 exc_violation(res, o, f"{tag0}: reset_parameters #{r + 1}", "exception-reset")
